@@ -261,7 +261,7 @@ def run(res, tier, seed, replay_sources=None):
     wd = os.path.join(vlib.BUILD, "work", PID)
     os.makedirs(wd, exist_ok=True)
     r = vlib.rng(seed, PID)
-    nsrc = {"quick": 40, "thorough": 400}[tier] * (3 if proof_broken else 1)
+    nsrc = {"quick": 110, "thorough": 900}[tier] * (3 if proof_broken else 1)
     sources = replay_sources if replay_sources is not None else [gen_source(r, i) for i in range(nsrc)]
     stats = {"sources": 0, "equality_cases": 0, "mutation_cases": 0, "mutations_applied": 0, "redigests": 0, "violations": 0, "asan_cases": 0,
              "subrange_copies": 0, "split_arrays": 0, "byte_images_compared": 0, "sources_skipped": 0, "special_cases": 0}
@@ -333,12 +333,14 @@ def run(res, tier, seed, replay_sources=None):
                 oo = outs if other == "a" else (e - b)
                 evo = s["loaded"] and oo > 0
                 dg = digest_cmds(other, s, s["probes"], evo)
+                # the mutated object is observed too (cheap digest): after the same calls a full copy must behave like its source
+                ds = ["dump %s meta needed nidx pidx" % side, "dump %s coef" % side, "xdump %s parked" % side]
                 muts = mutations(vlib.rng(s["seed"], "mut", mi), s, side, outs if side == "a" else (e - b))
                 ls = ["case " + cid] + s["script"] + copy_cmd(kind, b, e) + dg
                 for m in muts:
-                    ls += [m] + dg
+                    ls += [m] + dg + ds
                 scripts.append(ls)
-                plan[cid] = ("M", s, kind, b, e, len(s["script"]) + len(copy_cmd(kind, b, e)), len(dg), muts, side)
+                plan[cid] = ("M", s, kind, b, e, len(s["script"]) + len(copy_cmd(kind, b, e)), len(dg), muts, side, len(ds))
                 _ = so
     # special cases: self-assignment, documented outputs_end beyond the range
     for s in live[:max(6, len(live) // 3)]:
@@ -422,8 +424,9 @@ def run(res, tier, seed, replay_sources=None):
                         cid, s["spec"]["dims"], s["outs"], b, e, " ".join(map(str, xa.obs["cparked"])), " ".join(bits(xa.obs.get("cpvals", []))),
                         " ".join(map(str, xb.obs.get("cparked", []))), " ".join(bits(xb.obs.get("cpvals", [])))))
         elif pl[0] == "M":
-            _, s, kind, b, e, npre, nd, muts, side = pl
+            _, s, kind, b, e, npre, nd, muts, side, nself = pl
             stats["mutation_cases"] += 1
+            sib = out2.get(cid[:-1] + ("b" if side == "a" else "a"), [])
             base = steps[npre:npre + nd]
             pos = npre + nd
             for mi, m in enumerate(muts):
@@ -431,7 +434,6 @@ def run(res, tier, seed, replay_sources=None):
                     break
                 ms = steps[pos]
                 if ms.exc is not None and (ms.exc[0].startswith("crash") or ms.exc[0] == "hang"):
-                    sib = out2.get(cid[:-1] + ("b" if side == "a" else "a"), [])
                     sm = sib[pos] if pos < len(sib) else None
                     if sm is not None and sm.exc is not None and sm.exc[0] == ms.exc[0]:
                         stats["mutations_failing_on_both_sides"] = stats.get("mutations_failing_on_both_sides", 0) + 1
@@ -441,13 +443,24 @@ def run(res, tier, seed, replay_sources=None):
                     break
                 stats["mutations_applied"] += 1
                 cur = steps[pos + 1:pos + 1 + nd]
-                pos += 1 + nd
+                mine = steps[pos + 1 + nd:pos + 1 + nd + nself]
+                theirs = sib[pos + 1 + nd:pos + 1 + nd + nself]
+                mpos = pos
+                pos += 1 + nd + nself
                 if len(cur) < nd:
                     cr = [x for x in cur if x.exc is not None and (x.exc[0].startswith("crash") or x.exc[0] == "hang")]
                     viol("crash-observing-%s:%s:%s" % ("copy" if side == "a" else "source", fam, m.split()[0]),
                          "observing the other side after %s -> %s" % (m[:60], cr[0].exc if cr else "output truncated"), cid, s)
                     break
                 stats["redigests"] += 1
+                if kind != "range" and side == "a" and len(mine) == nself and len(theirs) == nself and mpos < len(sib):
+                    # the same call on the source (this case) and on a full copy (sibling case) must have the same effect
+                    stats["behaviour_compared"] = stats.get("behaviour_compared", 0) + 1
+                    w2 = same_steps([ms] + mine, [sib[mpos]] + theirs)
+                    if w2:
+                        viol("copy-behaves-differently:%s:%s" % (fam, m.split()[0]),
+                             "after %s the copy (%s) and the source differ: %s" % (m[:60], kind, w2), cid, s)
+                        break
                 why = same_steps(base, cur)
                 if why:
                     viol("shared-state:%s:%s:%s" % (fam, "source-changes-copy" if side == "a" else "copy-changes-source", m.split()[0]),
@@ -475,7 +488,7 @@ def run(res, tier, seed, replay_sources=None):
 
     # ---- the same scripts under ASan/UBSan (a sample in the quick tier)
     rs = vlib.rng(seed, PID, "asan")
-    asel = [x for x in scripts if rs.random() < ({"quick": 0.25, "thorough": 0.4}[tier])]
+    asel = [x for x in scripts if rs.random() < ({"quick": 0.3, "thorough": 0.4}[tier])]
     asan_env = dict(os.environ, ASAN_OPTIONS="detect_leaks=0:abort_on_error=0:exitcode=99", UBSAN_OPTIONS="print_stacktrace=1")
     nproc = max(1, min(vlib.NCPU, len(asel)))
     chunks = [[] for _ in range(nproc)]
@@ -491,6 +504,9 @@ def run(res, tier, seed, replay_sources=None):
                 bad = [x for x in steps if x.exc is not None and x.exc[0].startswith("crash")]
                 if bad and cid in plan:
                     s = plan[cid][1]
+                    if plan[cid][0] == "S":
+                        viol(KEY_SELF, "sanitizer: the grid is unusable after g = g (%s at '%s')" % (bad[0].exc, bad[0].cmd[:50]), cid, s)
+                        continue
                     if plan[cid][0] == "X":
                         viol(KEY_END, "sanitizer: copyGrid(source, 1, outputs+3) reads beyond the value arrays (%s)" % (bad[0].exc,), cid, s)
                         continue
@@ -548,6 +564,7 @@ def run(res, tier, seed, replay_sources=None):
         "sources": stats["sources"], "sources_skipped_config": stats["sources_skipped"], "equality_cases": stats["equality_cases"],
         "subrange_copies": stats["subrange_copies"], "byte_images_compared": stats["byte_images_compared"],
         "mutation_cases": stats["mutation_cases"], "mutations_applied": stats["mutations_applied"], "other_side_reobserved": stats["redigests"],
+        "source_vs_copy_behaviour_compared": stats.get("behaviour_compared", 0), "mutations_failing_on_both_sides": stats.get("mutations_failing_on_both_sides", 0),
         "special_cases": stats["special_cases"], "sanitizer_cases": stats["asan_cases"], "split_arrays_vs_model": stats["split_arrays"],
         "input_distribution": dist, "direct_property_violations": stats["violations"],
     })
